@@ -124,6 +124,29 @@ fn make_subjects(run: &mut Run) -> Vec<Subject> {
         }
         push("chain2", "jpg", r2, run);
     }
+    // claim v1 with ingredient `data` carried in a data box (hashed URI from the signed ingredient assertion)
+    {
+        let r = (|| -> Result<(Vec<u8>, Vec<u8>), String> {
+            let signer = signers::test_signer("ed25519");
+            let ctx = Context::new().with_settings(settings(&json!({})).as_str()).map_err(|e| e.to_string())?;
+            let mut b = Builder::from_context(ctx)
+                .with_definition(json!({
+                    "claim_version": 1,
+                    "claim_generator_info": [{"name": "verif", "version": "1.0"}],
+                    "title": "databox",
+                    "ingredients": [{"title": "prompt", "format": "text/plain", "relationship": "inputTo",
+                        "data": {"format": "text/plain", "identifier": "prompt.txt"},
+                        "data_types": [{"type": "c2pa.types.generator.prompt"}]}]
+                }))
+                .map_err(|e| e.to_string())?;
+            b.add_resource("prompt.txt", Cursor::new(b"C02 planted databox payload: pirate with bird on shoulder".to_vec())).map_err(|e| e.to_string())?;
+            let mut sr = Cursor::new(jpg.clone());
+            let mut d = Cursor::new(Vec::new());
+            let store = report::catch_sdk(|| b.sign(signer.as_ref(), "jpg", &mut sr, &mut d))?.map_err(|e| format!("sign: {e}"))?;
+            Ok((d.into_inner(), store))
+        })();
+        push("v1-databox", "jpg", r, run);
+    }
     // compressed manifests (brob)
     push("compressed-png", "png", sign("png", &png, def("brob"), create(), &json!({"core": {"prefer_compress_manifests": true}}), &[]), run);
     out
@@ -311,8 +334,16 @@ fn judge(s: &Subject, e: &Edit, route: &'static str) -> Option<Res> {
             None
         };
         if let Some(w) = what {
+            // cause class of the signature: which component of the store was touched (never the edit kind,
+            // route, byte pattern or field)
+            let comps: Vec<&str> = path.split(':').next().unwrap_or("").split('/').collect();
+            let group = match comps.len() {
+                0 | 1 => "store",
+                2 => "manifest",
+                _ => comps[2],
+            };
             violation = Some((
-                format!("{}|{}|{}|{}|{}|{}", s.shape, route, kind, path, field, w),
+                format!("{}|{}|{}", s.shape, group, w),
                 format!("store mutant {:?} ({route}) accepted as {} but {w}: {:?} codes {:?} vs {:?}", e, o.state, report::diff_paths(&base.report, &o.report, 6), if o.codes != base.codes { o.codes.clone() } else { vec![] }, if o.codes != base.codes { base.codes.clone() } else { vec![] }),
             ));
         }
